@@ -230,7 +230,17 @@ fn shuffle(u: &mut Choices, n: usize) -> Vec<usize> {
 fn random_case(u: &mut Choices, sz: Size) -> CaseResult {
     let nd = u.range(1, 4);
     let nr = u.range(1, 3);
-    let docs: Vec<V> = (0..nd).map(|_| gen_cfn_doc(u, &sz)).collect();
+    let mut sz = sz;
+    sz.alt_case = u.chance(1, 2);
+    let docs: Vec<V> = (0..nd)
+        .map(|_| {
+            let mut d = gen_cfn_doc(u, &sz);
+            if sz.alt_case {
+                add_case_families(u, &mut d);
+            }
+            d
+        })
+        .collect();
     // every rules file is generated with the same naming scheme: file-level variables fv1.., rules
     // r0.., parameterised rules pr0.. are shared names with different definitions
     let mut rules = vec![];
